@@ -14,6 +14,13 @@ import (
 	"github.com/buildbarn/bb-storage/pkg/digest"
 )
 
+// verifAnySelector maps a hash to a shard through an uninterpreted function.
+type verifAnySelector struct{ n int }
+
+func (s verifAnySelector) GetShard(hash uint64) int {
+	return int((vnd.UF("shard", hash) & 63) % uint64(s.n))
+}
+
 type verifNoSlicer struct{}
 
 func (verifNoSlicer) Slice(b buffer.Buffer, child digest.Digest) (buffer.Buffer, []slicing.BlobSlice) {
@@ -21,8 +28,8 @@ func (verifNoSlicer) Slice(b buffer.Buffer, child digest.Digest) (buffer.Buffer,
 }
 
 // Verif_C12_K4_Routing: Get, GetFromComposite, Put and FindMissing through the
-// real shardingBlobAccess over the real rendezvous selector (three concrete
-// keys, symbolic non-zero weights) and model back ends with symbolic presence:
+// real shardingBlobAccess over an ARBITRARY selector (uninterpreted function of
+// the hash prefix) and model back ends with symbolic presence:
 // every operation on a digest addresses the one shard the selector picks for
 // the first 8 hash bytes (big endian), whatever the instance name and the
 // operation; FindMissing asks each shard only about its own digests and returns
@@ -30,15 +37,9 @@ func (verifNoSlicer) Slice(b buffer.Buffer, child digest.Digest) (buffer.Buffer,
 func Verif_C12_K4_Routing() {
 	ctx := context.Background()
 	keys := []string{"shard-a", "shard-b", "shard-c"}
-	var cfg []Shard
-	for _, k := range keys {
-		w := vnd.U32()
-		vnd.Assume(w >= 1)
-		cfg = append(cfg, Shard{Key: k, Weight: w})
-	}
-	sel, err := NewRendezvousShardSelector(cfg)
-	vnd.Assert(err == nil, "selector rejected three distinct keys")
-	verifAbstractArithmetic() // scores as an uninterpreted function (K1 covers the arithmetic)
+	// an arbitrary selector: any function from the 64-bit hash prefix to a shard (K1-K3 decide
+	// the real rendezvous selector; routing must be right for EVERY selector)
+	sel := verifAnySelector{n: len(keys)}
 	objsA := verifstub.Universe("", 3)
 	objsB := verifstub.Universe("some/instance", 3)
 	var models []*verifstub.Model
@@ -92,13 +93,16 @@ func Verif_C12_K4_Routing() {
 		}
 	case 3:
 		vnd.Cover("findmissing")
-		sb := digest.NewSetBuilder(4)
-		for i := 0; i < 3; i++ {
-			sb.Add(objsA[i].Digest)
+		sb := digest.NewSetBuilder(3)
+		for i := 0; i < 2; i++ {
+			sb.Add(objsA[(oi+1+i)%3].Digest)
 		}
 		sb.Add(dB)
 		set := sb.Build()
-		failing := vnd.Choose(4) - 1
+		failing := -1
+		if vnd.Choose(2) == 1 {
+			failing = vnd.Choose(3)
+		}
 		if failing >= 0 {
 			models[failing].FailFindMissing = true
 		}
